@@ -118,6 +118,34 @@ class OrderedSet:
         return len(self.l)
 
 
+def h_gene_choice_order(n_genes):
+    """select_reference_gene: the gene a novel transcript is attached to must not depend on the iteration order of the
+    gene-id sets (hash seed)"""
+    from props import flblock
+    perms = list(itertools.permutations(range(n_genes)))
+
+    def fn(g):
+        genes = ["GENE_%s" % c for c in "ABC"[:n_genes]]
+        introns = [(11, 30), (41, 60)]
+        shares = [g.choice("gene%d_introns" % i, 3) for i in range(n_genes)]      # 0: first intron, 1: second, 2: both
+        strands = {gid: ("+" if g.bool("gene%d_plus" % i) else "-") for i, gid in enumerate(genes)}
+        tstrand = ["+", "-", "."][g.choice("transcript_strand", 3)]
+        res = []
+        for which in ("order_a", "order_b"):
+            p = perms[g.choice(which, len(perms))]
+            c = flblock.make_constructor("A" * 100, flblock.default_params("auto"))
+            c.gene_info = flblock.Obj(chr_id="chr1", gene_strands=strands, empty=lambda: False)
+            c.intron_genes = {}
+            for k, intron in enumerate(introns):
+                owners = OrderedSet(genes[i] for i in p if shares[i] in (k, 2))
+                if len(owners):
+                    c.intron_genes[intron] = owners
+            res.append(call(g, c.select_reference_gene, introns, (1, 100), tstrand))
+        g.check(res[0] == res[1], "the reference gene chosen for a novel transcript does not depend on set iteration order",
+                detail={"chosen": res, "shares": shares, "strands": strands})
+    return fn
+
+
 def instances(tier, seed):
     q = tier == "quick"
     out = [Instance("set_iteration_scan", h_scan, [], "AST scan of src/*.py", weight=1)]
@@ -125,6 +153,12 @@ def instances(tier, seed):
         out.append(Instance("compact_record_set_order[%d]" % n, h_basic_record_order(n), ["src.isoform_assignment:BasicReadAssignment.__init__",
                                                                                         "src.isoform_assignment:BasicReadAssignment.__eq__"],
                             "%d isoform matches, both insertion orders chosen by the solver" % n, weight=n))
+    for n in ((2, 3) if q else (2, 3)):
+        out.append(Instance("reference_gene_choice_order[%d]" % n, h_gene_choice_order(n),
+                            ["src.graph_based_model_construction:GraphBasedModelConstructor.select_reference_gene"],
+                            "%d genes sharing introns, both iteration orders of the gene-id sets chosen by the solver" % n, weight=50 * n))
+    out.append(Instance("exon_id_storage_fresh", c10.h_id_storage_fresh, ["src.dataset_processor:construct_models_in_parallel", "src.id_policy:FeatureIdStorage.__init__"],
+                        "two consecutive chromosome runs in one worker process", weight=30))
     # hash seed: group universe order (shared with C09)
     for gs in ([["NA", "A"], ["b", "a", "NA"]] if q else [["NA", "A"], ["b", "a", "NA"], ["10", "NA", "b", "B"]]):
         out.append(Instance("group_order[%s]" % "|".join(sorted(gs)), c09.h_grouped(sorted(gs), "both"),
